@@ -150,7 +150,7 @@ func TestProp(t *testing.T) {
 
 	nBubble, nReal := 1500, 160
 	if vh.Thorough() {
-		nBubble, nReal = 60000, 3000
+		nBubble, nReal = 30000, 1500
 	}
 	_, ns := vh.Shard()
 	nBubble /= ns
